@@ -272,16 +272,23 @@ func getAsync(c *Ctx) {
 			}) {
 				isErr := strings.HasSuffix(an.FieldOfAddr(st.(*ssa.Store).Addr), ".Error")
 				good := found
-				if found && isErr {
-					good = pq.onlyViaEdge(st, ifn, 1-ns) && st.(*ssa.Store).Val == errv
-				} else if found {
-					good = pq.onlyViaEdge(st, ifn, ns) && len(okIfs) == 1
-					if good {
-						ts := 0
-						if okNegs[0] {
-							ts = 1
+				// a store of a value joined from several arms is judged arm by arm (an arm that stores nil reports nothing)
+				for _, tp := range storeTuples(st.(*ssa.Store)) {
+					if isNilConst(tp.val) {
+						continue
+					}
+					if found && isErr {
+						good = good && pq.onlyViaEdge(tp.site, ifn, 1-ns) && tp.val == errv
+					} else if found {
+						g2 := pq.onlyViaEdge(tp.site, ifn, ns) && len(okIfs) == 1
+						if g2 {
+							ts := 0
+							if okNegs[0] {
+								ts = 1
+							}
+							g2 = pq.onlyViaEdge(tp.site, okIfs[0], ts)
 						}
-						good = pq.onlyViaEdge(st, okIfs[0], ts)
+						good = good && g2
 					}
 				}
 				pq.add("PATH", pickS(isErr, "the waiter reports an error only if get() failed", "the waiter reports a value only if get() found one"), good,
